@@ -170,6 +170,12 @@ func (v *VerifCore) Heads() map[uint32]string {
 // PromiseCount returns the number of outstanding join promises.
 func (v *VerifCore) PromiseCount() int { return len(v.c.promises) }
 
+// HasPromise tells whether a promise is outstanding for the transaction.
+func (v *VerifCore) HasPromise(tx hg.InternalTransaction) bool {
+	_, ok := v.c.promises[tx.HashString()]
+	return ok
+}
+
 /*******************************************************************************
 Node
 *******************************************************************************/
